@@ -693,7 +693,7 @@ func sectionMnemonics(a *acc, thorough bool) {
 			if !thorough {
 				stepW = 61
 				if code == "en" {
-					stepW = 3
+					stepW = 7
 				}
 			}
 			for v := 0; v < 2048; v += stepW {
@@ -923,6 +923,9 @@ func sectionHostile(a *acc, thorough bool) {
 			stem := strings.Split(refMnemonic(e, wordlists.English), " ")
 			for i := 0; i <= len(stem); i++ {
 				for w := 0; w <= 2 && i+w <= len(stem); w++ {
+					if !thorough && size != 16 && w != 1 {
+						continue
+					}
 					for _, t1 := range tokens {
 						for _, t2 := range append([]string{"\x01none"}, tokens...) {
 							if t2 != "\x01none" && (size != 16 || (!thorough && w != 2)) {
